@@ -225,7 +225,7 @@ def pure_note(fn):
 
 
 VD = dict(R=1, M=1, N=1, junk=True, thr_kinds=('int', 'float'))
-VR = dict(R=1, M=1, N=1, ver_kinds=('int',), thr_kinds=('int', 'float'))
+VR = dict(R=1, M=1, N=2, ver_kinds=('int',), thr_kinds=('int', 'float'))     # two signature entries: a rotation (old key, new key) can be accepted
 
 
 def pre(res, tier):
